@@ -126,6 +126,102 @@ def t_importance_k(E):
     E.refutable("smc.importance_k", E.eq(lw.at(z3.IntVal(0)), 0.0))
 
 
+@task("smc.importance_k.csmc", props=["C26"], functions=FUNCS + [SMC + ":ImportanceK.run_csmc"])
+def t_importance_k_csmc(E):
+    """conditional SMC with K particles: K-1 fresh particles as in run_smc plus the RETAINED choices as the last particle, each
+    weighted by target importance weight minus proposal log-density (estimate_logpdf for the retained one).
+    `stack_to_first_dim(a, b)` (append b to the stacked a) is modelled, not executed (A4: jnp.concatenate / reshape)."""
+    z3, T = E.z3, E.I.T
+    qw, qc, ql = proposal_theory(E)
+    tgt, g, args, c = target_(E)
+    K = E.int("K", conc=True)
+    E.assume(K.t >= 2)
+    k = key(E)
+    retained = chm(E, "retained")
+
+    def stack_to_first_dim(I, a, b):
+        from theory.externals import ite
+        if isinstance(a, Stacked):
+            stacked_operands.append(a)
+            n = a.n if not isinstance(a.n, int) else z3.IntVal(a.n)
+            return Stacked(n + 1, lambda i: ite(I, i < n, a.at(i), b), tag="stack_to_first_dim")
+        raise Exception(f"stack_to_first_dim model: first operand {type(a).__name__}")
+    E.I.overrides[SMC + ":stack_to_first_dim"] = stack_to_first_dim
+    stacked_operands = []
+    for with_q in (True, False):
+        tag = "proposal" if with_q else "prior"
+        q = E.opaque("q", "SampleDistribution") if with_q else None
+        imp = E.new(SMC + ":ImportanceK", target=tgt, q=q, k_particles=K)
+        del stacked_operands[:]
+        st, pc = E.attempt(lambda: E.method(imp, "run_csmc", k, retained))
+        E.require(f"C26.ImportanceK.run_csmc.{tag}.does_not_raise", st == "ok", raised=str(pc))
+        particles, lw = pc.fields["particles"], pc.fields["log_weights"]
+        E.prove(f"C26.ImportanceK.run_csmc.{tag}.K_particles", (lw.n if not isinstance(lw.n, int) else z3.IntVal(lw.n)) == K.t)
+        last = K.t - 1
+        tr_last = E.I.to_u(particles.at(last))
+        # the last particle holds the retained choices (merged with the target's constraint) ...
+        nt = z3.simplify(tr_last)
+        E.require(f"C26.ImportanceK.run_csmc.{tag}.last_particle_is_a_target_importance_trace",
+                  z3.is_app(nt) and nt.decl().name() == "gf_generate_tr" and nt.num_args() == 4)
+        E.prove(f"C26.ImportanceK.run_csmc.{tag}.last_particle_is_the_retained_one",
+                z3.And(nt.arg(0) == g.t, nt.arg(2) == T.chm_or(c.t, retained.t), nt.arg(3) == args.t))
+        # ... and is weighted by its importance weight minus the proposal's log-density estimate of the retained choices
+        w_last = lw.at(last)
+        merged = T.chm_or(c.t, retained.t)
+        if with_q:
+            # the proposal's estimate for the retained choices: q.estimate_logpdf(some key, retained, target)
+            cands = []
+            seen_ = set()
+
+            def walk(e):
+                if e.get_id() in seen_:
+                    return
+                seen_.add(e.get_id())
+                if z3.is_app(e) and e.decl().name() == "q_estimate_logpdf":
+                    cands.append(e)
+                for ch in e.children():
+                    walk(ch)
+            from pyvc.interp_ops import zreal
+            walk(z3.simplify(zreal(w_last)))
+            E.require(f"C26.ImportanceK.run_csmc.{tag}.retained_weight_uses_one_proposal_density_estimate", len(cands) == 1)
+            E.prove(f"C26.ImportanceK.run_csmc.{tag}.retained_particle_weight", z3.And(
+                cands[0].arg(0) == q.t, cands[0].arg(2) == retained.t, cands[0].arg(3) == E.I.to_u(tgt),
+                E.z(E.eq(w_last, SReal(T.cdens(nt, merged) - cands[0])))))
+        else:
+            E.prove(f"C26.ImportanceK.run_csmc.{tag}.retained_particle_weight", E.eq(w_last, SReal(T.cdens(nt, merged))))
+        # the K-1 other particles: fresh importance traces, each weighted by ITS OWN weight minus ITS OWN proposal weight
+
+        from pyvc.interp_ops import zreal as _zr
+        if with_q:
+            # the operands of the two stackings: the K-1 proposed choice maps and their K-1 proposal log-weights
+            E.require(f"C26.ImportanceK.run_csmc.{tag}.appends_the_retained_choices_and_their_density_to_the_fresh_ones",
+                      len(stacked_operands) == 2)
+            ch_stack, sc_stack = stacked_operands
+
+            def fresh(i):
+                ci, si = E.I.to_u(ch_stack.at(i)), z3.simplify(_zr(sc_stack.at(i)))
+                ti = E.I.to_u(particles.at(i))
+                mi = T.chm_or(c.t, ci)
+                same_draw = z3.simplify(ci).num_args() == 3 and si.num_args() == 3 and \
+                    z3.simplify(ci).decl().name() == "q_random_weighted_choice" and si.decl().name() == "q_random_weighted_logw"
+                body = z3.And(T.tr_genfn(ti) == g.t, T.tr_args(ti) == args.t, T.agrees(T.tr_choices(ti), mi),
+                              _zr(lw.at(i)) == T.cdens(ti, mi) - si,
+                              (z3.simplify(ci).arg(1) == si.arg(1)) if same_draw else z3.BoolVal(False))
+                return body
+            E.prove(f"C26.ImportanceK.run_csmc.{tag}.fresh_particle_i_is_weighted_by_its_own_importance_weight_minus_its_own_proposal_weight",
+                    forall_i(E, K.t - 1, fresh))
+        else:
+            E.require(f"C26.ImportanceK.run_csmc.{tag}.appends_the_retained_particle_to_the_fresh_ones", len(stacked_operands) == 2)
+            sc_stack, tr_stack = stacked_operands
+
+            def fresh(i):
+                ti = E.I.to_u(particles.at(i))
+                return z3.And(ti == E.I.to_u(tr_stack.at(i)), T.tr_genfn(ti) == g.t, T.tr_args(ti) == args.t,
+                              T.agrees(T.tr_choices(ti), c.t), _zr(lw.at(i)) == T.cdens(ti, c.t))
+            E.prove(f"C26.ImportanceK.run_csmc.{tag}.fresh_particle_i_is_weighted_by_its_own_importance_weight", forall_i(E, K.t - 1, fresh))
+    E.refutable("smc.importance_k.csmc", E.eq(lw.at(z3.IntVal(0)), 0.0))
+
+
 @task("smc.change_target", props=["C26"], functions=FUNCS)
 def t_change_target(E):
     """ChangeTarget reweights each particle by  new target weight - old particle score + old weight"""
